@@ -33,7 +33,7 @@ CHECKS = {
  "C08": dict(
     level="model_checking", technique="TLA+ spec Session.tla: End action enabled in every state; TLC-simulated sessions ended by DISCONNECT / abrupt close / cut inside a packet (seeded byte offset) / malformed packet on a real broker; trie size, will and presence departures validated by TLC",
     text="TLC checks NothingLeftBehind exhaustively for 2 clients. Sessions with ordinary, link-created and presence-change subscriptions (incl. colliding filters) and wills (good, read-only, undecryptable key; wildcard or malformed topic; retain) are ended in four ways on the real broker; the trace spec demands that the real trie shrinks to exactly the other connections' entries, watchers get one unsubscribe per subscription, and the will is delivered once iff allowed.",
-    note="fault_enumeration part: the byte offset of a cut is seeded (quick) - all offsets in the thorough tier are sampled across behaviours, not enumerated per packet.",
+    note="Cut points: every session that ends with a cut uses a seeded byte offset inside a SUBSCRIBE; in addition a cut sweep repeats 1 (quick) / 12 (thorough) of those sessions per matcher with the cut after EVERY byte of a SUBSCRIBE and of a retained PUBLISH to a subscribed channel.",
     ref="4.5, 5/C08"),
  "C18": dict(
     level="model_checking", technique="TLA+ spec Session.tla presence actions; TLC-simulated histories replayed on a real broker; status replies and change notifications validated by TLC",
@@ -58,7 +58,7 @@ CHECKS = {
  "C12": dict(
     level="exploration", technique="AuthZ.tla attacker model (field-level tamper operations under an authenticated / block / stream cipher abstraction) checked by TLC; each operation concretised on real key strings under the 3 license ciphers and decided by the real Service.Authorize",
     text="TLC shows TamperSafe for an authenticated cipher and for the block cipher abstraction, and produces the gains for the stream abstraction. Every model case (3024) is applied as a byte-level operation to a real issued key under license v1 (XTEA), v2 (XSalsa20) and v3 (salted Salsa20), plus seeded single-character substitutions and multi-byte xor masks; a modified key must grant nothing the original did not (30 probes). Gains under v2/v3 that the stream model predicts are the known finding stream_malleable; anything else (any gain under v1, any unpredicted gain) is a violation.",
-    note="Bounded attacker: modifications of one issued key; no cryptanalysis; 2^-32 signature/target collisions under XTEA excluded.",
+    note="Bounded attacker: modifications of one issued key, and every byte-range splice between two keys issued by the real keygen from one master key (the result may grant what either key granted); no cryptanalysis; 2^-32 signature/target collisions under XTEA excluded.",
     ref="4.2, 5/C12"),
  "C06": dict(
     level="model_checking", technique="TLA+ spec History.tla: the iterator loop of SSD.lookup (QueryImpl) vs the property's description (QuerySpec) model-checked equal by TLC over all stores x queries; TLC-simulated store sequences replayed on the real SSD and InMemory providers; query results validated by TLC (History_Trace)",
@@ -73,7 +73,7 @@ CHECKS = {
  "C10": dict(
     level="model_checking", technique="TLA+ spec WriteQueue.tla (multi-step writers + timer flush over the RWMutex) model-checked with TLC; TLC-simulated schedules forced onto the real listener.Conn through verif.At gates and validated by TLC; plus mutual-exclusion probes and really concurrent stress runs whose socket stream is validated by TLC (WriteQueue_Stress)",
     text="TLC checks exhaustively (2 writers x 2-3 packets + timer) that the locking discipline of Conn.Write/Flush keeps framing, per-writer order, no loss, no duplication for every interleaving and limiter outcome. Simulated schedules are forced step by step onto a real listener.Conn (goroutines parked at gates inside Write/Flush, limiter outcome forced), and after every step the parked position and the bytes on the recording socket must be the model's. Because a forced schedule only exercises interleavings the model allows, each schedule ends with a mutual-exclusion probe (a thread that needs the queue lock must not pass while another holds the flush lock) and the check adds free-running concurrent runs at flush rates 1/60/1000 whose decoded stream must satisfy the stream predicates.",
-    note="Socket writes are atomic w.r.t. each other (net.TCPConn; the fake socket implements that). The broker fan-out above the connection and the websocket transport's own mutex are exercised sequentially in C17/C02; concurrent publishers through the whole broker are not part of this check.",
+    note="Socket writes are atomic w.r.t. each other (net.TCPConn; the fake socket implements that). A whole-broker stage runs 6 really concurrent publishers and 3 subscribers, every connection behind a real listener.Conn at the three flush-rate regimes; the subscribers' raw byte streams are split by an own parser and the stream predicates (framing, per-publisher order, no loss, no duplicate) are evaluated by TLC. The websocket transport's own mutex is exercised sequentially in C17 only.",
     ref="4.7, 5/C10"),
  "C17": dict(
     level="model_checking", technique="TLA+ specs Sniffer.tla, WsTransport.tla, WriteQueue.tla (single writer) model-checked with TLC; every edge of their exported state graphs executed on the real adapters over scripted fake sockets; recorded reads/writes validated by TLC",
@@ -88,7 +88,7 @@ CHECKS = {
  "C15": dict(
     level="fault_enumeration", technique="TLA+ spec Durable.tla (begin / commit / ack / crash / reopen) model-checked with TLC; traces recorded from a real storing child process (storage.SSD) killed with SIGKILL at seeded points or stopped cleanly, and from the fresh process that reopens the directory, validated by TLC (Durable_Trace)",
     text="Chains of 3-4 restart cycles on one directory: a child process stores random messages announcing begin/ack on a pipe and is SIGKILLed right after a seeded acknowledgement, a few hundred microseconds after a seeded begin (inside Store), at a seeded instant, or closed cleanly; a fresh process reopens the store and lists every message. TLC validates acked subset-of recovered subset-of attempted, identical id/channel/payload/ttl, nothing that was recovered once disappears later, and that the store reopens.",
-    note="Process kill, not power loss (SyncWrites=false). Crash instants are sampled: 12 kills (quick) / ~200 (thorough).",
+    note="Process kill, not power loss (SyncWrites=false). Crash instants are sampled: 12 kills (quick) / ~200 (thorough). Clean stops include a Close issued while another goroutine is still storing (a Store that returns nil counts as acknowledged).",
     ref="4.4, 5/C15"),
  "C20": dict(
     level="exploration", technique="abstract codec contract Codec.tla (round trip, injectivity, rejection, total-or-error) evaluated by TLC on events recorded from the real license codecs and key ciphers over TLC-enumerated boundary classes",
